@@ -75,7 +75,12 @@ def body_rows(spec, stats):
 
 def _single_vs_all(sys, spec, df_all, **kw):
     for ph in spec["phases"]:
-        one = B.solve(sys, phase=ph, **kw)
+        try:
+            one = B.solve(sys, phase=ph, **kw)
+        except Exception as e:
+            raise Fail("single.exception." + type(e).__name__,
+                       "solve() returned all phases {} but solve(phase={!r}) raised {}: {}".format(
+                           dict(spec["phases"]), ph, type(e).__name__, e))
         sub = df_all[df_all["Phase"] == ph].reset_index(drop=True)
         cols = list(one.columns)
         missing = [c for c in cols if c not in sub.columns]
